@@ -32,7 +32,7 @@ RULE = ("one run = program (1-2 files, second file possibly a twin of the first:
         "1-5 evaluations each) x approved set x 2 schedules (uniform / round-robin / bursty / reversed merge of the per-site sequences, cut into "
         "tests at random); distinct = interleaving signatures (hash of the site-id sequence with values erased); non-trivial = at least two sites "
         "whose evaluations alternate")
-RULE += " Dimensions added while testing against seeded changes: looped comparisons inside finally blocks (one textual call reached by two instructions: normal and exceptional path); access-only keys; mutation test; a first test with a fault at one site; re-evaluated containers with a changing hand-written part in front of an Is() part, and with two Is() parts."
+RULE += " Dimensions added while testing against seeded changes: looped comparisons inside finally blocks (one textual call reached by two instructions: normal and exceptional path); access-only keys; mutation test; a first test with a fault at one site; re-evaluated containers with a changing hand-written part in front of an Is() part, and with two Is() parts; a helper module imported under two names."
 ASSUMPTIONS = ["all events are non-aborting (rec style) so both schedules reach the same observations",
                "id() reuse of freed code objects is out of reach (see level note)"]
 REAL_VS_STUB = {
